@@ -110,6 +110,32 @@ theorem wf_addSeq {s : Spec} (wf : SpecWF s) (o : SeqObj) (hfresh : s.findSeq o.
     (hbase : o.isSup = false → o.template.length = o.len ∧ viewNucs o false = fwd o.name o.len)
     (hsup : o.isSup = true → ItemsOK s o.items o.bases) :
     SpecWF { s with seqs := s.seqs ++ [o] } := by
+  have hsupE : ∀ (i : Nat) (o' : SeqObj), (s.seqs ++ [o])[i]? = some o' → o'.isSup = true →
+      ∀ it ∈ o'.items, ∃ j o'', j < i ∧ (s.seqs ++ [o])[j]? = some o'' ∧
+        ({ s with seqs := s.seqs ++ [o] } : Spec).findSeq it.name = some o'' := by
+    have mono' : ∀ n p, s.findSeq n = some p → ({ s with seqs := s.seqs ++ [o] } : Spec).findSeq n = some p := by
+      intro n p hp
+      show (s.seqs ++ [o]).find? (·.name == n) = some p
+      rw [find?_append_fresh]
+      have : s.seqs.find? (·.name == n) = some p := hp
+      rw [this]; rfl
+    intro i o' hi hs' it hit
+    by_cases hlt : i < s.seqs.length
+    · rw [List.getElem?_append_left hlt] at hi
+      obtain ⟨j, o'', hj, hjo, hf⟩ := wf.supEarlier i o' hi hs' it hit
+      have hjl : j < s.seqs.length := by omega
+      exact ⟨j, o'', hj, by rw [List.getElem?_append_left hjl]; exact hjo, mono' _ _ hf⟩
+    · rw [List.getElem?_append_right (by omega)] at hi
+      have hi0 : i - s.seqs.length = 0 := by
+        cases h : i - s.seqs.length with
+        | zero => rfl
+        | succ k => rw [h] at hi; simp at hi
+      rw [hi0] at hi
+      simp only [List.getElem?_cons_zero, Option.some.injEq] at hi
+      subst hi
+      obtain ⟨p, hp⟩ := Option.isSome_iff_exists.1 ((hsup hs').resolve it hit)
+      obtain ⟨j, hj, hje⟩ := List.getElem_of_mem (findSeq_mem hp).1
+      exact ⟨j, p, by omega, by rw [List.getElem?_append_left hj, List.getElem?_eq_getElem hj, hje], mono' _ _ hp⟩
   have mono : ∀ n p, s.findSeq n = some p → ({ s with seqs := s.seqs ++ [o] } : Spec).findSeq n = some p := by
     intro n p hp
     show (s.seqs ++ [o]).find? (·.name == n) = some p
@@ -146,6 +172,7 @@ theorem wf_addSeq {s : Spec} (wf : SpecWF s) (o : SeqObj) (hfresh : s.findSeq o.
   · intro its hits i hi
     obtain ⟨p, hp⟩ := Option.isSome_iff_exists.1 (wf.equal its hits i hi)
     rw [mono _ _ hp]; rfl
+  · exact hsupE
 
 theorem wf_addStrand {s : Spec} (wf : SpecWF s) (o : StrandObj) (hfresh : s.findStrand o.name = none)
     (hlen : (nucsOfBases o.bases).length = o.len) (ok : ItemsOK s o.items o.bases) :
@@ -208,6 +235,7 @@ theorem wf_addStrand {s : Spec} (wf : SpecWF s) (o : StrandObj) (hfresh : s.find
       rw [hk', monoS _ _ hp, hk, hp]
     rw [this]
   · exact wf.equal
+  · exact wf.supEarlier
 
 theorem wf_addStruct {s : Spec} (wf : SpecWF s) (so : StructObj)
     (hres : ∀ n ∈ so.strands, (s.findStrand n).isSome = true) (hb : getBonds so.struct = .ok so.bonds)
@@ -232,6 +260,7 @@ theorem wf_addStruct {s : Spec} (wf : SpecWF s) (so : StructObj)
     · exact wf.structLen so' h
     · simp at h; subst h; exact hlen
   · exact wf.equal
+  · exact wf.supEarlier
 
 theorem wf_addEqual {s : Spec} (wf : SpecWF s) (its : List ItemRef)
     (hres : ∀ i ∈ its, (s.findSeq i.name).isSome = true) :
@@ -252,9 +281,21 @@ theorem wf_addEqual {s : Spec} (wf : SpecWF s) (its : List ItemRef)
     rcases List.mem_append.1 hits' with h | h
     · exact wf.equal its' h
     · simp at h; subst h; exact hres
+  · exact wf.supEarlier
 
 theorem specWF_empty : SpecWF {} := by
-  constructor <;> intro _ h <;> simp at h
+  constructor
+  · intro _ h; simp at h
+  · intro _ h; simp at h
+  · intro _ h; simp at h
+  · intro _ h; simp at h
+  · intro _ h; simp at h
+  · intro _ h; simp at h
+  · intro _ h; simp at h
+  · intro _ h; simp at h
+  · intro _ h; simp at h
+  · intro _ h; simp at h
+  · intro i o h; simp at h
 
 theorem mapM_except_ok {α β ε : Type} (f : α → Except ε β) (l : List α) {bs : List β} (h : l.mapM f = .ok bs) :
     ∀ a ∈ l, ∃ b, f a = .ok b := by
